@@ -185,7 +185,10 @@ fn check_history(reference: &[Vec<String>], shared: &[CooklangParser], h: &[usiz
     for cfg in 0..CFGS {
         let clone = shared[cfg].clone();
         let fresh = parser_for(cfg);
-        for (which, p) in [("shared instance", &shared[cfg]), ("clone", &clone), ("new instance", &fresh)] {
+        // histories of four calls (thorough tier) run on the shared instance only
+        let instances: &[(&str, &CooklangParser)] = &[("shared instance", &shared[cfg]), ("clone", &clone), ("new instance", &fresh)];
+        let instances = if h.len() > 3 { &instances[..1] } else { instances };
+        for &(which, p) in instances {
             for (step, &i) in h.iter().enumerate() {
                 local.evaluations += 1;
                 let got = observe(p, i);
